@@ -682,8 +682,15 @@ fn any_library() -> Vec<AnyScenario> {
       // evaluated to null for one that does not conform (as a null item of a collection of number does not) and cannot
       // see that the definition stands for Any — the specification states it that way (items of such a collection
       // are not null); compared with the model and the specification of the driver only
-      let model_only = vec![s("[null]"), s("[1, null]")];
-      out.push(AnyScenario { what: "collection of a definition referring to Any", defs, top: "tLA", input, output: vec![], model_only });
+      out.push(AnyScenario { what: "collection of a definition referring to Any", defs: defs.clone(), top: "tLA", input, output: vec![], model_only: vec![] });
+      // since the seventh round asserted (finding F73-null-item-any-alias): every value conforms to Any, null is a
+      // value, and a reference to a definition means what the definition means — a null item of a collection of a
+      // definition that stands for Any (directly, or through a chain of references) conforms, the list reaches the
+      // logic unchanged, as it does for the collection of Any itself
+      let nulls: Vec<(String, String)> = ["[null]", "[1, null]", "[null, \"a\"]", "[null, null]", "[[1], null, {a: 1}]"].iter().map(|v| (s(v), s(v))).collect();
+      out.push(AnyScenario { what: "null item of a collection of a definition standing for Any", defs, top: "tLA", input: nulls.clone(), output: vec![], model_only: vec![] });
+      let defs = vec![(s("tLA2"), Item::CollRef(s("tA2"), Av::None)), (s("tA2"), Item::Ref(s("tA"), Av::None)), (s("tA"), a())];
+      out.push(AnyScenario { what: "null item of a collection of a definition standing for Any", defs, top: "tLA2", input: nulls, output: vec![], model_only: vec![] });
       let defs = vec![(s("tM"), Item::CollRef(s("tL"), Av::None)), (s("tL"), la())];
       let mut input: Vec<(String, String)> = vec![];
       for v in any_values() {
@@ -1311,6 +1318,8 @@ pub fn run(cfg: &Cfg) -> Report {
     if c.obs != exp {
       let sig = if what.contains("resembles") {
         "typed input: a type reference that only resembles Any is taken for a type"
+      } else if what.starts_with("null item of a collection of a definition standing for Any") {
+        "typed input: a null item of a collection of a definition that stands for Any makes the whole list null"
       } else if *what == "white space" {
         "typed input: white space around the name an item definition refers to makes the input null"
       } else {
